@@ -182,6 +182,14 @@ def finish(ctx, write_evidence=True):
         out.append('   note: known finding no longer reported (fixed or code moved): %s' % k)
     code = 0
     replay_dir = os.path.join(VERIF, 'evidence', 'replay')
+    if write_evidence and os.path.isdir(replay_dir):
+        # replay files describe the violations of *this* run: drop the ones an earlier run of this property left behind
+        for fn in os.listdir(replay_dir):
+            if fn.startswith(ctx.prop + '-'):
+                try:
+                    os.remove(os.path.join(replay_dir, fn))
+                except OSError:
+                    pass
     if ctx.errors:
         code = 2
         for (rule, construct, why) in ctx.errors:
